@@ -43,6 +43,11 @@ pub trait ShapesRef {
     #[no_int_result]
     fn res_c(&self, x: i32) -> Result<u32, u8>;
     fn res_io(&self, x: i32) -> Result<u64, std::io::Error>;
+    /// primitive leaves that pass through unconverted: char (all planes), bool, signed bytes, 128-bit integers, floats
+    fn prim_c(&self, c: char, up: bool) -> char;
+    fn prim_w(&self, x: i128, y: i8) -> u128;
+    fn prim_f(&self, x: f32, y: f64) -> f64;
+    fn prim_b(&self, x: u16, y: char) -> bool;
     /// integer results WITHOUT a success payload (no output slot) and with a user error type whose codes are arbitrary non-zero i32s
     fn res_iu(&self, x: i32) -> Result<(), std::io::Error>;
     fn res_du(&self, x: i32) -> Result<(), DevErr>;
@@ -107,6 +112,10 @@ impl ShapesRef for Obj {
     fn rstr(&self) -> &str { log_call(vec![self.id, 14]); &self.s }
     fn res(&self, x: i32) -> Result<u64, ()> { log_call(vec![self.id, 16, x as i64]); if x < 0 { Err(()) } else { Ok(x as u64 * 2) } }
     fn res_c(&self, x: i32) -> Result<u32, u8> { log_call(vec![self.id, 18, x as i64]); if x >= 0 { Ok(x as u32) } else { Err(x.wrapping_neg() as u8) } }
+    fn prim_c(&self, c: char, up: bool) -> char { log_call(vec![self.id, 31, c as i64, up as i64]); if up { char::from_u32(c as u32 + 1).unwrap_or('\u{10FFFF}') } else { c } }
+    fn prim_w(&self, x: i128, y: i8) -> u128 { log_call(vec![self.id, 32, (x >> 64) as i64, x as i64, y as i64]); (x as u128).rotate_left(17) ^ (y as i128 as u128) }
+    fn prim_f(&self, x: f32, y: f64) -> f64 { log_call(vec![self.id, 33, x.to_bits() as i64, y.to_bits() as i64]); x as f64 * 0.5 + y }
+    fn prim_b(&self, x: u16, y: char) -> bool { log_call(vec![self.id, 34, x as i64, y as i64]); (x as u32) < (y as u32) }
     fn res_iu(&self, x: i32) -> Result<(), std::io::Error> { log_call(vec![self.id, 26, x as i64]); if x == 0 { Ok(()) } else if x == 1 { Err(std::io::Error::new(std::io::ErrorKind::Other, "no code")) } else { Err(std::io::Error::from_raw_os_error(x)) } }
     fn res_du(&self, x: i32) -> Result<(), DevErr> { log_call(vec![self.id, 27, x as i64]); if x == 0 { Ok(()) } else { Err(DevErr(x)) } }
     fn res_dv(&self, x: i32) -> Result<u32, DevErr> { log_call(vec![self.id, 28, x as i64]); if x % 2 == 0 { Ok((x as u32).wrapping_mul(3)) } else { Err(DevErr(x)) } }
@@ -162,6 +171,10 @@ fn call_ref<T: ShapesRef>(t: &mut T, op: &[i64], scratch: &mut Scratch) -> Vec<i
         16 => vec![16, match t.res(a(1) as i32) { Ok(v) => v as i64, Err(()) => -1 }],
         18 => vec![18, match t.res_c(a(1) as i32) { Ok(v) => v as i64, Err(e) => -(e as i64) }],
         19 => vec![19, match t.res_io(a(1) as i32) { Ok(v) => v as i64, Err(e) => -(e.raw_os_error().filter(|c| *c != 0).unwrap_or(0xffff) as i64) - 1_000_000 /* errors without an OS code are documented to become 0xffff */ }],
+        31 => { let c = char::from_u32((a(1) as u32) % 0x110000).unwrap_or('\u{FFFD}'); vec![31, t.prim_c(c, a(2) % 2 == 1) as i64] }
+        32 => { let x = ((a(1) as i128) << 64) | (a(2) as u64 as i128); let r = t.prim_w(x, a(3) as i8); vec![32, (r >> 64) as i64, r as i64] }
+        33 => { let r = t.prim_f(f32::from_bits(a(1) as u32), f64::from_bits(a(2) as u64)); vec![33, r.to_bits() as i64] }
+        34 => { let c = char::from_u32((a(2) as u32) % 0x110000).unwrap_or('a'); vec![34, t.prim_b(a(1) as u16, c) as i64] }
         26 => vec![26, match t.res_iu(a(1) as i32) { Ok(()) => 0, Err(e) => -(e.raw_os_error().filter(|c| *c != 0).unwrap_or(0xffff) as i64) - 1_000_000 }],
         27 => vec![27, match t.res_du(a(1) as i32) { Ok(()) => 0, Err(e) => e.0 as i64 }],
         28 => vec![28, match t.res_dv(a(1) as i32) { Ok(v) => v as i64 + (1 << 40), Err(e) => e.0 as i64 }],
@@ -261,7 +274,7 @@ impl Scratch { fn new() -> Self { Scratch { rgbw: (0..27u32).map(|i| i * 13 + 1)
 
 fn final_state(o: &Obj) -> Vec<i64> { vec![o.state, digest(&o.buf), digest(o.s.as_bytes()), o.cell as i64] }
 
-fn is_ref_op(op: &[i64]) -> bool { matches!(op[0], 0 | 6 | 7 | 8 | 9 | 10 | 12 | 13 | 14 | 16 | 18 | 19 | 20 | 21 | 22 | 23 | 24 | 25) }
+fn is_ref_op(op: &[i64]) -> bool { matches!(op[0], 0 | 6 | 7 | 8 | 9 | 10 | 12 | 13 | 14 | 16 | 18 | 19 | 20 | 21 | 22 | 23 | 24 | 25 | 26 | 27 | 28 | 31 | 32 | 33 | 34) }
 
 /// params: [trait: 0 ShapesRef / 1 ShapesMut ; container: 0 Box, 1 &mut, 2 & (ShapesRef only), 3 Box with a CArc context,
 ///          4 CArcSome (ShapesRef only), 5 a clone of a CArcSome that the caller keeps, with a CArc context (ShapesRef only)]
